@@ -738,12 +738,21 @@ func runE2E(raw json.RawMessage, seed int64, rec *Rec) {
 		_ = ss.Close() // closing twice (a deferred Close after an explicit one) is ordinary user code
 	default:
 		bs := client.CallBidiStream(ctx)
-		setHdr(bs.RequestHeader())
+		// every other echo scenario: the receiving goroutine is already inside Receive when the sending goroutine sets
+		// the request headers and sends for the first time (the request must not leave before that)
+		lateHdr := sc.Echo && sc.Tid%2 == 1
+		if !lateHdr {
+			setHdr(bs.RequestHeader())
+		}
 		if sc.Echo {
 			var wg sync.WaitGroup
 			wg.Add(1)
 			go func() { // the sending goroutine
 				defer wg.Done()
+				if lateHdr {
+					time.Sleep(5 * time.Millisecond)
+					setHdr(bs.RequestHeader())
+				}
 				for _, m := range sc.Req {
 					if err := bs.Send(st.payload(m)); err != nil {
 						rec.Add(E("csend", "code", codeOf(err), "eof", isEOF(err)))
